@@ -151,6 +151,23 @@ Declared(file, p) == CASE file = "leader"  -> LeaderDeclared(p)
                        [] file = "image"   -> ImageDeclared(p)
                        [] file = "trailer" -> TrailerDeclared(p)
 
+(* ---------------- declared values that are informational only ---------------- *)
+\* The reader's consumption (Consume) and the exposed tree (OutMap) do not depend on these declared values: the
+\* positions of the 28 state vectors, of every record and of every field are fixed by the record lengths alone.  A
+\* file may therefore carry any valid number there (a processor that counts only the vectors inside the scene, a
+\* renumbered record) and must read back identically.  <<record index, path, alternative valid values>>
+LeaderInformational(p) ==
+    LET recs == LeaderRecords(p)
+        idx(nm) == CHOOSE k \in 1..Len(recs) : recs[k].name = nm
+    IN  << <<idx("platform_position"), "number_of_data_points", <<27, 11, 1>> >> >>
+        \o [j \in 1..(Len(recs) - 1) |-> <<j + 1, "preamble.record_sequence_number", <<j + 2, 1, 999>> >>]
+        \o << <<idx("facility_related_data_1"), "record_sequence_number", <<2, 9, 0>> >>,
+              <<idx("facility_related_data_4"), "record_sequence_number", <<1, 7, 44>> >> >>
+Informational(file, p) ==
+    CASE file = "leader" -> LeaderInformational(p)
+      [] file = "volume" -> [j \in 1..(Len(VolumeRecords(p)) - 1) |-> <<j + 1, "preamble.record_sequence_number", <<j + 2, 1, 999>> >>]
+      [] OTHER -> << >>
+
 (* the complete placed instance handed to the synthesiser *)
 ImageInstance(p) ==
     LET reclen == LinePrefix(p.kind) + p.ndata IN
@@ -160,7 +177,7 @@ ImageInstance(p) ==
                        leaves |-> Flat(ImageDescriptorFields, 0, "")],
                       [name |-> "line", off |-> 720, len |-> reclen, count |-> p.n,
                        leaves |-> Flat(LineFields(p.kind, p.ndata), 0, "")] >>,
-      declared |-> ImageDeclared(p) ]
+      declared |-> ImageDeclared(p), informational |-> << >> ]
 
 Instance(file, p) ==
     IF file = "image" THEN ImageInstance(p) ELSE
@@ -170,6 +187,6 @@ Instance(file, p) ==
       records  |-> [k \in 1..Len(recs) |->
                       [name |-> recs[k].name, off |-> Start(recs, k), len |-> recs[k].len, count |-> 1,
                        leaves |-> Flat(recs[k].fields, 0, "")]],
-      declared |-> Declared(file, p) ]
+      declared |-> Declared(file, p), informational |-> Informational(file, p) ]
 
 =============================================================================
